@@ -70,8 +70,9 @@ def build_harness(caps=CAPS):
             os.replace(exe + ".tmp", exe)
         # drop stale harness dirs
         for n in os.listdir(CACHE):
-            if n.startswith("harness-") and n != "harness-" + h:
-                shutil.rmtree(os.path.join(CACHE, n), ignore_errors=True)
+            pth = os.path.join(CACHE, n)
+            if n.startswith("harness-") and n != "harness-" + h and time.time() - os.path.getmtime(pth) > 6 * 3600:
+                shutil.rmtree(pth, ignore_errors=True)
     return out
 
 
